@@ -386,6 +386,18 @@ def r_feature_and_shape(repo, rep, R='R19.4'):
     return nfeat, nshape
 
 
+LABEL_SHAPE_EXAMPLE = """
+def write(node, out):
+    label = node.op_string
+    if label == 'conj':
+        out.write(show(node.cat.left))
+    elif node.op_string in ('lp', 'gbx') and node.is_binary:
+        out.write(node.cat.slash)
+    else:
+        out.write(show(node.cat))
+"""
+
+
 def label_guarded_shape_reads(tree):
     """-> [(label, attribute node)]: `X.cat.left` / `.right` / `.slash` read where the only thing known about X is its rule
     label (`if X.op_string == 'conj':`): the printer relies on every rule with that label returning a functor category."""
@@ -394,12 +406,27 @@ def label_guarded_shape_reads(tree):
         if not (isinstance(n, ast.Attribute) and n.attr in ('left', 'right', 'slash') and isinstance(n.value, ast.Attribute) and n.value.attr == 'cat'):
             continue
         base = src(n.value.value)
+        fn_ = None
+        x_ = n
+        while getattr(x_, '_parent', None) is not None:
+            x_ = x_._parent
+            if isinstance(x_, ast.FunctionDef):
+                fn_ = x_
+                break
+        # a local that holds the label:  op_string = node.op_string
+        alias = set()
+        if fn_ is not None:
+            for a_ in ast.walk(fn_):
+                if isinstance(a_, ast.Assign) and len(a_.targets) == 1 and isinstance(a_.targets[0], ast.Name) and src(a_.value) == base + '.op_string':
+                    nm_ = a_.targets[0].id
+                    if sum(1 for b_ in ast.walk(fn_) if isinstance(b_, ast.Name) and b_.id == nm_ and isinstance(b_.ctx, ast.Store)) == 1:
+                        alias.add(nm_)
         cur = n
         while getattr(cur, '_parent', None) is not None and not isinstance(cur, (ast.FunctionDef, ast.Lambda)):
             par = cur._parent
             if isinstance(par, (ast.If, ast.IfExp)) and (cur in par.body if isinstance(par, ast.If) else cur is par.body):
                 for t in ([par.test] if not (isinstance(par.test, ast.BoolOp) and isinstance(par.test.op, ast.And)) else par.test.values):
-                    if isinstance(t, ast.Compare) and len(t.ops) == 1 and src(t.left) == base + '.op_string':
+                    if isinstance(t, ast.Compare) and len(t.ops) == 1 and (src(t.left) == base + '.op_string' or (isinstance(t.left, ast.Name) and t.left.id in alias)):
                         c = t.comparators[0]
                         if isinstance(t.ops[0], ast.Eq) and isinstance(c, ast.Constant) and isinstance(c.value, str):
                             out.append((c.value, n))
@@ -434,6 +461,9 @@ def r_label_shape(repo, rep, R='R19.4'):
     label must then return a functor, or the format raises AttributeError on the atomic result."""
     n = 0
     from ..core import attach_parents
+    ex = attach_parents(ast.parse(LABEL_SHAPE_EXAMPLE))
+    if sorted((l, x.lineno) for l, x in label_guarded_shape_reads(ex)) != [('conj', 5), ('gbx', 7), ('lp', 7)]:
+        raise AnalysisError('the label-shape rule does not match its positive example')
     for rel in repo.py_files('depccg/printer'):
         mod = repo.module(rel)
         attach_parents(mod.tree)
@@ -498,6 +528,6 @@ def check(repo, rep, tier):
     from .c07 import r_conll_heads
     r_conll_heads(repo, rep, 'R19.6')
     nf, ns = r_feature_and_shape(repo, rep)
-    rep.floor('rule results whose shape a printer relies on by label', r_label_shape(repo, rep), 2)
+    r_label_shape(repo, rep)      # (conditional on the printers reading under a label test at all: an embedded example instead of an instance floor)
     rep.floor('feature member reads in printers', nf, 1)
     rep.floor('shape-specific reads in category printers', ns, 10)
